@@ -4,7 +4,7 @@
    dedupSeriesIterator with its constants regenerated from pkg/dedup/iter.go). *)
 From Coq Require Import ZArith List Bool NArith Sorting.Sorted Permutation.
 Import ListNotations.
-From Verif Require Import Lib.Corr Gen.C04 Model.C04 Proofs.C04.
+From Verif Require Import Lib.Corr Gen.C04 Model.C04 Proofs.C04 Proofs.C04_Total Proofs.C04_Cuts Proofs.C04_Main.
 Open Scope Z_scope.
 
 (* overlapSplitSet: every chunk of a series lands in exactly one pseudo-replica
@@ -39,30 +39,40 @@ Print Assumptions C04_no_dedup_identity.
 (* The penalty algorithm (any number of pseudo-replicas, left-nested as in
    dedupSeries.Iterator, any penalties): when the first stream w0 is strictly
    increasing and every other stream is a subsequence of it — in particular when
-   all replicas hold identical samples — the deduplicated series is exactly w0
-   restricted to [mint, maxt]. PARTIAL: stated for runs on which the model's fuel
-   suffices (series_samples = Some out); fuel sufficiency is not proved. *)
-Theorem C04_identical_streams_partial : forall mint maxt w0 ws out,
+   all replicas hold identical samples — the model terminates (its fuel
+   suffices) and the deduplicated series is exactly w0 restricted to [mint, maxt]. *)
+Theorem C04_identical_streams : forall mint maxt w0 ws,
   rawstream w0 -> Forall (fun w => sub w w0) ws ->
-  series_samples mint maxt (w0 :: ws) = Some out ->
-  out = in_range mint maxt w0.
-Proof. exact series_samples_first_complete. Qed.
-Print Assumptions C04_identical_streams_partial.
+  series_samples mint maxt (w0 :: ws) = Some (in_range mint maxt w0).
+Proof. exact series_samples_total. Qed.
+Print Assumptions C04_identical_streams.
 
-(* Through Select, dedup on, one logical series behind the proxy: one output
-   series, labels as handed over by the proxy (replica labels removed there),
-   samples = w0 in range. PARTIAL: the hypothesis is on the result of the overlap
-   split (first pseudo-replica complete, the others subsequences); that replicas
-   with identical samples and NON-overlapping cuts always give such a split is
-   checked by the correspondence runs, not proved; for overlapping cuts it is
-   false, see C04_overlapping_cuts_refuted. *)
-Theorem C04_identical_replicas_partial : forall mint maxt ls cs w0 ws out,
-  map chunk_iter (overlap_split cs) = w0 :: ws ->
-  rawstream w0 -> Forall (fun w => sub w w0) ws ->
-  select mint maxt true [(ls, cs)] = Some out ->
-  out = [(ls, in_range mint maxt w0)].
-Proof. exact select_dedup_first_complete. Qed.
-Print Assumptions C04_identical_replicas_partial.
+(* The overlap split of identical replicas with NON-overlapping cuts: for one
+   logical series whose replicas (any number) each cut the same strictly
+   increasing samples L into consecutive non-empty chunks (any cuts), and for
+   any proxy output that passes the checks of Model.proxy_ok_dedup (only replica
+   chunks, every replica chunk's data present, sorted by MinTime), the first
+   pseudo-replica holds exactly L and every other one a subsequence of L. *)
+Theorem C04_split_of_identical_replicas : forall x,
+  item_ok x ->
+  map chunk_iter (overlap_split (i_cs x)) = i_L x :: ws_of x
+  /\ Forall (fun w => sub w (i_L x)) (ws_of x).
+Proof. exact item_split. Qed.
+Print Assumptions C04_split_of_identical_replicas.
+
+(* THE PROPERTY, dedup on, identical replicas: for any number of logical series
+   (adjacent label sets distinct, as the proxy delivers them), any number of
+   replicas per series, arbitrary non-overlapping chunk cuts per replica, any
+   placement on stores / frames (the proxy output only has to pass the checked
+   relation), any [mint, maxt]: Select returns exactly one series per logical
+   series, labelled as handed over by the proxy (replica labels removed there),
+   holding exactly the replicas' samples inside [mint, maxt]. *)
+Theorem C04_identical_replicas : forall mint maxt items,
+  Forall item_ok items -> adj_distinct (map i_lbl items) ->
+  select mint maxt true (map (fun x => (i_lbl x, i_cs x)) items)
+  = Some (map (fun x => (i_lbl x, in_range mint maxt (i_L x))) items).
+Proof. exact select_identical_replicas. Qed.
+Print Assumptions C04_identical_replicas.
 
 (* REFUTED for overlapping cuts: one replica whose 11 samples (15 s apart) sit
    on two stores with overlapping time ranges — chunks [0..60000] and
@@ -114,6 +124,23 @@ Proof.
   - split; [|vm_compute; repeat constructor].
     unfold SS, nv_L. vm_compute. repeat (constructor; [|repeat (constructor; [reflexivity|])]); constructor.
   - split; vm_compute; reflexivity.
+Qed.
+
+Definition nv_item : item :=
+  mkItem [] nv_L
+    [[nv_chunk 0 2; nv_chunk 2 10]; [nv_chunk 0 2; nv_chunk 2 4; nv_chunk 4 10]; [nv_chunk 0 4; nv_chunk 4 10]]
+    nv_cs.
+
+Example C04_nonvacuous_item : item_ok nv_item /\ ws_of nv_item = [firstn 4 nv_L; skipn 2 nv_L].
+Proof.
+  split; [|vm_compute; reflexivity].
+  destruct C04_nonvacuous as (_ & Hraw & _).
+  unfold item_ok. split; [exact Hraw|]. split; [discriminate|]. split; [discriminate|].
+  split.
+  - repeat (constructor; [split; [vm_compute; reflexivity|
+              repeat (constructor; [eexists; eexists; repeat split; vm_compute; reflexivity|]); constructor]|]).
+    constructor.
+  - repeat split; vm_compute; reflexivity.
 Qed.
 
 Example C04_nonvacuous_split :
